@@ -13,7 +13,7 @@ static const struct fam FQ[] = {{"AC", 2, 6, 0, 4}, {"LK", 2, 5, 1, 3}, {"AC", 3
 static const struct fam FT[] = {{"ACG", 2, 6, 0, 4}, {"LKW", 2, 5, 1, 3}, {"AC", 3, 4, 0, 4}, {"ACG", 3, 3, 0, 2}, {"AC", 4, 3, 0, 2}, {"AC", 5, 2, 0, 1}, {"LK", 3, 4, 1, 3}, {"LKW", 4, 2, 1, 1}, {"LK", 5, 2, 1, 1}};
 static const int DT[] = {KALIGN_TYPE_UNDEFINED, KALIGN_TYPE_DNA, KALIGN_TYPE_DNA_INTERNAL, KALIGN_TYPE_RNA};
 static const int PT[] = {KALIGN_TYPE_UNDEFINED, KALIGN_TYPE_PROTEIN, KALIGN_TYPE_PROTEIN_DIVERGENT};
-#define NNAMING 4       /* s0,s1.. | z0,y1.. (reverse lexicographic) | "Q7Z5 isoform <j>" (blank, common first word) | n, nn, nnn (each a prefix of the next) */
+#define NNAMING 5       /* s0,s1.. | z0,y1.. (reverse lexicographic) | "Q7Z5 isoform <j>" (blank, common first word) | n, nn, nnn (each a prefix of the next) | 1abcA, 1abca, 1ABCa (differ only in case) */
 #define NTIE3 12 /* members of the 1024-prefix tie family (shapes.h): every pair of sequences ties in the guide-tree distance */
 #define NBIG (4 + NTIE3)  /* big sets: sched inputs 11 (104 dna), 12 (130 protein), each with two namings; then the tie sets */
 
@@ -65,6 +65,10 @@ static void decode(uint64_t id, int tier, struct ocase* c)
                                         snprintf(nm, sizeof nm, "%c%d", 'z' - j, j);
                                 }else if(naming == 2){
                                         snprintf(nm, sizeof nm, "Q7Z5 isoform %d", F[i].k - j);
+                                }else if(naming == 4){
+                                        /* names that differ only in letter case (PDB chain style) */
+                                        static const char* CASEN[5] = {"1abcA", "1abca", "1ABCa", "1aBca", "1abCA"};
+                                        snprintf(nm, sizeof nm, "%s", CASEN[j % 5]);
                                 }else if(naming == 3){
                                         snprintf(nm, sizeof nm, "%.*s", j + 1, "nnnnnnnn");
                                 }else{
